@@ -1,6 +1,7 @@
 import LinfaSpec.Proofs.Incremental
 import LinfaSpec.Proofs.IncrementalState
 import LinfaSpec.Proofs.IncrementalFull
+import LinfaSpec.Proofs.IncrementalMore
 
 /-!
 # C15 — incremental fitting replays to batch fitting / its recurrence
@@ -255,6 +256,48 @@ theorem mnb_absent_class [Transc α] (a : α) (info : MInfo α) (cols : List (Li
     mnbUpdateClass a info cols 0 = (info.flogp, info.fcount) := by
   simp [mnbUpdateClass]
 
+
+/-- **multinomial NB replay through the whole model state**: after feeding any list of batches (any
+number, any sizes, classes missing from batches, classes appearing late) every class holds exactly
+the number of its rows, the per-feature sums of its rows in the concatenated data and the additively
+smoothed log-frequencies of those sums — the textbook estimate; classes never seen are absent. -/
+theorem mnb_replay_whole_state [Transc α] (a : α) (p : Nat) (hist : List (Batch α)) (c : Nat) :
+    (lookup c (mnbRun a p hist)).map mProj = mnbStats a p hist.flatten c :=
+  mnbRun_stats a p hist c
+
+/-- hence batch-by-batch fitting and one fit on the whole data give the same class statistics -/
+theorem mnb_incremental_eq_batch [Transc α] (a : α) (p : Nat) (hist : List (Batch α)) (c : Nat) :
+    (lookup c (mnbRun a p hist)).map mProj = (lookup c (mnbRun a p [hist.flatten])).map mProj := by
+  rw [mnbRun_stats, mnbRun_stats]; simp
+
+/-- the textbook record of a class is what the whole-state replay produces -/
+theorem mnb_stats_is_textbook [Transc α] (a : α) (p : Nat) (d : Batch α) (c : Nat)
+    (hc : rowsOf c d ≠ []) : mnbStats a p d c = some (mProj (mnbTextbook a p d c)) := by
+  simp [mnbStats, hc, mProj, mnbTextbook]
+
+/-- **multinomial counts and priors are the class frequencies of the concatenated data** -/
+theorem mnb_counts_priors [Transc α] (a : α) (p : Nat) (hist : List (Batch α)) (c : Nat)
+    (i : MInfo α) (h : lookup c (mnbRun a p hist) = some i) :
+    i.count = (rowsOf c hist.flatten).length ∧
+    i.prior = ((rowsOf c hist.flatten).length : α) / (hist.flatten.length : α) := by
+  have hs := mnbRun_stats a p hist c
+  rw [h] at hs
+  have hcount : i.count = (rowsOf c hist.flatten).length := by
+    simp only [mnbStats] at hs
+    by_cases hd : rowsOf c hist.flatten = []
+    · simp [hd] at hs
+    · simp only [hd, if_false, Option.map_some, mProj, Option.some.injEq, Prod.mk.injEq] at hs
+      exact hs.1
+  refine ⟨hcount, ?_⟩
+  rcases List.eq_nil_or_concat hist with rfl | ⟨h', b, rfl⟩
+  · simp [mnbRun, lookup] at h
+  · simp only [List.concat_eq_append] at *
+    have e : mnbRun a p (h' ++ [b]) = mnbStep a p (mnbRun a p h') b := by
+      simp [mnbRun, List.foldl_append]
+    have hp := mnbStep_prior a p (mnbRun a p h') b c i (by rw [← e]; exact h)
+    rw [← e, mnbRun_total] at hp
+    rw [hp, hcount]
+
 /-! ## prediction -/
 
 /-- **the predicted class maximises the joint log-likelihood** (any score function, any state) -/
@@ -315,6 +358,34 @@ theorem converged_iff_shift_lt_tol [Transc α] (tol : α) (st : KState α) (obs 
       Transc.sqrt (kmShiftSq st.centroids (kmStep tol st obs).1.centroids) < tol := by
   simp [kmStep]
 
+
+/-- **any metric: the assignment is to a nearest centroid** — the distance `closest_centroid` returns
+is at most the (r)distance to every centroid (L2, L1, L-infinity) -/
+theorem km_assigns_nearest (m : Metric) (cs : List (List α)) (x : List α) (c : List α) (hc : c ∈ cs) :
+    (closestBy m cs x).2 ≤ rdistBy m c x :=
+  closestBy_le m cs x c hc
+
+/-- **converged is reported truthfully for every metric**: `Ok` iff the metric's distance between the
+old and the new centroid matrix is below the tolerance -/
+theorem converged_iff_dist_lt_tol_any_metric [Transc α] (m : Metric) (tol : α) (st : KState α)
+    (obs : List (List α)) :
+    (kmStepBy m tol st obs).2.1 = true ↔
+      distBy m st.centroids.flatten (kmStepBy m tol st obs).1.centroids.flatten < tol := by
+  simp [kmStepBy]
+
+/-- the L2 instance of the metric-generic step is `kmStep` (so the theorems above apply to it) -/
+theorem km_l2_instance [Transc α] (tol : α) (st : KState α) (obs : List (List α)) :
+    ((kmStepBy .l2 tol st obs).1, (kmStepBy .l2 tol st obs).2.1) = kmStep tol st obs :=
+  kmStepBy_l2 tol st obs
+
+/-- **the `n_runs` selection of `fit_with(None, ..)` keeps an initialisation of lowest inertia** -/
+theorem km_init_picks_lowest_inertia {β : Type} (l : List (β × α)) (b : β × α)
+    (h : pickInit l = some b) : b ∈ l ∧ ∀ y ∈ l, b.2 ≤ y.2 :=
+  pickInit_spec l b h
+
+example : pickInit ([("a", 3), ("b", 1), ("c", 2), ("d", 1)] : List (String × Rat)) = some ("d", 1) := by
+  decide +kernel
+
 /-! ## FTRL-proximal -/
 
 /-- **per-coordinate recurrence**: `z' = z + g - σ·w`, `n' = n + g²` -/
@@ -362,6 +433,12 @@ theorem ftrl_zero_iff [Transc α] (hp : FtrlHp α) (z n : α)
     rcases div_eq_zero_iff.mp hw with h | h
     · linarith
     · exact hden h
+
+
+/-- **the sigmoid is clamped**: beyond `±max_abs` the predicted probability no longer depends on the logit -/
+theorem ftrl_sigmoid_clamped [Transc α] (m v : α) (hm : 0 ≤ m) :
+    (m ≤ v → sigmoid m v = sigmoid m m) ∧ (v ≤ -m → sigmoid m v = sigmoid m (-m)) :=
+  ⟨sigmoid_clamp_hi m v hm, sigmoid_clamp_lo m v hm⟩
 
 instance : Transc Rat := ⟨fun x => x, fun x => x, fun x => x⟩  -- only for the examples below
 
